@@ -339,4 +339,67 @@ theorem mlp_with_skip_gradient {n0 m m' d k : ℕ} (n : Network ℝ) (s1 : Stack
   rw [hfun] at this
   exact this
 
+open LayerChain SkipWalk VJP ChainLinks DenseStack DenseBridge ConvVJP ConvBridge ConvNet Flat3 in
+/-- **instance: a residual connection around a convolution** — convolution `l0`, then a shape-preserving
+    convolution `l1` that the skip goes around, then a convolution `l2` (flattened) and a dense stack of any depth:
+    the target convolution processes `conv₁(y) + y`, and the gradient handed back to the input image is the
+    gradient of the objective (every configuration of the three convolutions) -/
+theorem residual_conv_network_gradient {c0 h0 w0 f kh0 kw0 h w kh1 kw1 f2 kh2 kw2 h2 w2 k : ℕ} (n : Network ℝ)
+    (l0 : Conv ℝ) (a0 : Act) (K0 : V (I4 f c0 kh0 kw0)) (hl0 : IsConv l0 a0 K0 h0 w0 h w) (ha0 : a0 ≠ .softmax) (hf0 : l0.flatten = false)
+    (l1 : Conv ℝ) (a1 : Act) (K1 : V (I4 f f kh1 kw1)) (hl1 : IsConv l1 a1 K1 h w h w) (ha1 : a1 ≠ .softmax) (hf1 : l1.flatten = false)
+    (l2 : Conv ℝ) (a2 : Act) (K2 : V (I4 f2 f kh2 kw2)) (hl2 : IsConv l2 a2 K2 h w h2 w2) (ha2 : a2 ≠ .softmax) (hf2 : l2.flatten = true)
+    (s : Stack (f2 * h2 * w2) k) (hv : s.Valid)
+    (hl : n.layers = [.conv l0, .conv l1, .conv l2] ++ s.layers) (hc : n.connect = [(2, 1)])
+    (hacc : n.skipaccumulation = .add) (hlb : n.loopbacks = [])
+    (x : V (I3 c0 h0 w0)) :
+    let y := convFn l0 a0 K0 h0 w0 h w x
+    let p := convFn l1 a1 K1 h w h w y + y
+    let F := fun z : V (I3 c0 h0 w0) =>
+      s.net.fwd (flat (convFn l2 a2 K2 h w h2 w2 (convFn l1 a1 K1 h w h w (convFn l0 a0 K0 h0 w0 h w z) + convFn l0 a0 K0 h0 w0 h w z)))
+    (∀ i, NoKink a0 (pre l0 K0 h0 w0 h w x i)) → (∀ i, NoKink a1 (pre l1 K1 h w h w y i)) →
+    (∀ i, NoKink a2 (pre l2 K2 h w h2 w2 p i)) → s.NoKinks (flat (convFn l2 a2 K2 h w h2 w2 p)) →
+    ∀ (ℓ : Vec k → ℝ) (g : Vec k), IsGrad ℓ (F x) g →
+    ∃ t ws bs gs γ,
+      n.forward (T3 x) = .ok t ∧ t.act.getLast? = some (vecT (F x)) ∧
+      n.backward (vecT g) t = .ok (ws, bs, gs) ∧ gs.getLast? = some (T3 γ) ∧ IsGrad (ℓ ∘ F) x γ := by
+  intro y p F hk0 hk1 hk2 hks ℓ g hg
+  obtain ⟨hkf, hkc, hkh, hih, hoh⟩ := hl1.pos
+  let head := consConv (oh := h) (ow := w) l0 a0 K0 h0 w0 (Chain.nil (iVol f h w) (eVol f h w))
+  have hF : ∀ z, skipFn (eVol f h w) head (.conv l1) (convFn l1 a1 K1 h w h w) (convBwdX l1 a1 K1 h w h w)
+      (fun x => T3 (pre l1 K1 h w h w x)) (fun _ => .none) (fun x g => (.one (T4 (convBwdKer l1 a1 K1 h w h w x g)), .one none))
+      (Chain.nil (iVol f h w) (eVol f h w))
+      (.conv l2) (fun x => flat (convFn l2 a2 K2 h w h2 w2 x)) (fun x g => convBwdX l2 a2 K2 h w h2 w2 x (unflat g))
+      (fun x => T3 (pre l2 K2 h w h2 w2 x)) (fun _ => .none)
+      (fun x g => (.one (T4 (convBwdKer l2 a2 K2 h w h2 w2 x (unflat g))), .one none)) (stackChain s) z = F z := by
+    intro z
+    simp only [skipFn, midC, tailC, head, consConv, gnet, GNet.fwd, stack_gnet_fwd, F]
+  have hnet : IsSkipNet (eVol f h w) head (.conv l1) (convFn l1 a1 K1 h w h w) (convBwdX l1 a1 K1 h w h w)
+      (fun x => T3 (pre l1 K1 h w h w x)) (fun _ => .none) (fun x g => (.one (T4 (convBwdKer l1 a1 K1 h w h w x g)), .one none))
+      (Chain.nil (iVol f h w) (eVol f h w))
+      (.conv l2) (fun x => flat (convFn l2 a2 K2 h w h2 w2 x)) (fun x g => convBwdX l2 a2 K2 h w h2 w2 x (unflat g))
+      (fun x => T3 (pre l2 K2 h w h2 w2 x)) (fun _ => .none)
+      (fun x g => (.one (T4 (convBwdKer l2 a2 K2 h w h2 w2 x (unflat g))), .one none)) (stackChain s) n := by
+    refine ⟨?_, ?_, hacc, hlb⟩
+    · rw [hl]; simp [LayerChain.layers, head, consConv, stackChain_layers]
+    · rw [hc]; simp [LayerChain.layers, head, consConv]
+  have hyy : (gnet head).fwd x = y := rfl
+  have r0 := real_conv l0 a0 K0 hl0 ha0 hf0 x
+  have r1 := real_conv l1 a1 K1 hl1 ha1 hf1 y
+  have r2 := real_conv_flat l2 a2 K2 hl2 ha2 hf2 p
+  have key := skip_network_gradient (eVol f h w) head (.conv l1) (convFn l1 a1 K1 h w h w) (convBwdX l1 a1 K1 h w h w)
+      (fun x => T3 (pre l1 K1 h w h w x)) (fun _ => .none) (fun x g => (.one (T4 (convBwdKer l1 a1 K1 h w h w x g)), .one none))
+      (Chain.nil (iVol f h w) (eVol f h w))
+      (.conv l2) (fun x => flat (convFn l2 a2 K2 h w h2 w2 x)) (fun x g => convBwdX l2 a2 K2 h w h2 w2 x (unflat g))
+      (fun x => T3 (pre l2 K2 h w h2 w2 x)) (fun _ => .none)
+      (fun x g => (.one (T4 (convBwdKer l2 a2 K2 h w h2 w2 x (unflat g))), .one none)) (stackChain s) n hnet
+      (encAdd_vol f h w hkf hih) x
+  have := key
+      (show _ ∧ _ ∧ _ from ⟨r0.1, r0.2, trivial⟩) (show _ ∧ _ ∧ _ from ⟨r1.1, r1.2, trivial⟩)
+      (show _ ∧ _ ∧ _ from ⟨r2.1, r2.2, stackChain_real s _ hv⟩)
+      (show _ ∧ _ from ⟨vjp_conv l0 a0 K0 hl0 ha0 x hk0, trivial⟩) (show _ ∧ _ from ⟨vjp_conv l1 a1 K1 hl1 ha1 y hk1, trivial⟩)
+      (show _ ∧ _ from ⟨vjp_conv_flat l2 a2 K2 hl2 ha2 p hk2, stackChain_ok s _ hv hks⟩)
+      ℓ g (by rw [hF]; exact hg)
+  rw [funext hF] at this
+  exact this
+
 end C16
